@@ -228,3 +228,13 @@ Theorem json_default_export_rewrite_on_clone :
                     negb (is_shared (ws_class s))) ast_write_sites = true.
 Proof. exact json_default_export_rewrite_is_on_a_clone. Qed.
 Print Assumptions json_default_export_rewrite_on_clone.
+
+(* the merge of adjacent "@layer" entries in findImportedFilesInCSSOrder appends
+   to a layer list that may belong to a cached css_ast.AST only after the
+   didClone re-creation (the obligation seeded change C08-3 broke) *)
+Theorem css_layer_merge_on_clone :
+  existsb (fun s => String.eqb (ws_lhs s)
+     "wipOrder[prevIndex].layers = append(prev.layers, entry.layers...) {after a conditional re-creation of prev.layers}")
+    ast_write_sites = true.
+Proof. exact css_layer_merge_after_recreation. Qed.
+Print Assumptions css_layer_merge_on_clone.
